@@ -125,6 +125,8 @@ structure Guards where
   setParentGiven : Bool → Bool          -- crate_impl.cpp:250     `parent`
   setParentGiven2 : Bool → Bool         -- crate_impl.cpp:267     `parent ? … : …`
   addBackExisting : Bool → Bool         -- playlist_entity_table.cpp:52 `existing_id`
+  crateRemoveTrackFound : Bool → Bool   -- crate_impl.cpp:219     `row`
+  dbRemoveTrackFound : Bool → Bool      -- database_impl.cpp:166  `row`
 
 def Guards.source : Guards where
   rootAfterNoRow := C15Guards.v2_db_root_after_norow
@@ -135,6 +137,8 @@ def Guards.source : Guards where
   setParentGiven := C15Guards.v2_crate_set_parent_given
   setParentGiven2 := C15Guards.v2_crate_set_parent_given2
   addBackExisting := C15Guards.v2_pe_add_back_existing
+  crateRemoveTrackFound := C15Guards.v2_crate_remove_track_found
+  dbRemoveTrackFound := C15Guards.v2_db_remove_track_found
 
 /-- `playlist_entity_table::add_back` (playlist_entity_table.cpp:36-85): `*existing_id` behind `if (existing_id)`. -/
 def peAddBackG (g : Guards) (d : Db) (l t u : Int) (throwIfDup : Bool) : Db × Res Out :=
@@ -145,6 +149,14 @@ def peAddBackG (g : Guards) (d : Db) (l t u : Int) (throwIfDup : Bool) : Db × R
   else
     let i := d.peSeq + 1
     ({ d with pe := appendBack d.pe i l ⟨t, u⟩, peSeq := i }, .ok (some i))
+
+/-- One round of the loop of `database_impl::remove_track` (database_impl.cpp:162-170): `row->id` behind `if (row)`. -/
+def rmTrackInG (g : Guards) (t : Int) (acc : Res (Table Ent)) (l : Int) : Res (Table Ent) :=
+  acc.bind fun pe =>
+    let row := (pe.filter (fun r => r.key == l && r.val.track == t && r.val.uuid == 0)).getLast?   -- :165
+    if g.dbRemoveTrackFound row.isSome then                                                       -- :166
+      (deref row).bind fun e => .ok (deleteKeyed fires pe l e.id)                                 -- :168 row->id
+    else .ok pe
 
 /-- The cycle test of `crate_impl::set_parent` (crate_impl.cpp:250-265): `none` = no objection. -/
 def setParentCheckG (g : Guards) (d : Db) (c : Int) (p : Option Int) : Res (Option Exn) :=
@@ -223,6 +235,20 @@ def stepGW (g : Guards) (d : Db) : Op → Db × Res Out
     else if !d.tracks.contains t then (d, .throw (exn "track_deleted"))
     else peAddBackG g d c t 0 false
   | .peAddBack l t u f => peAddBackG g d l t u f
+  -- database_impl::remove_track (database_impl.cpp:154-182)
+  | .removeTrack t =>
+    match (ids d.pl).foldl (rmTrackInG g t) (.ok d.pe) with
+    | .ok pe =>
+      if d.tracks.contains t then ({ d with pe := pe, tracks := d.tracks.filter (· != t) }, .ok none)
+      else (d, .throw .invalid_argument)
+    | .throw e => (d, .throw e)
+    | .ub u => (d, .ub u)
+  -- crate_impl::remove_track (crate_impl.cpp:211-223)
+  | .removeTrackFrom c t =>
+    let row := peFind d c t 0                                                           -- :217
+    if g.crateRemoveTrackFound row.isSome then                                          -- :219
+      withDeref d row fun e => ({ d with pe := deleteKeyed fires d.pe c e.id }, .ok none)   -- :221 row->id
+    else (d, .ok none)
   | op => step d op
 
 /-- the guarded step with the guards of the source as it is today -/
